@@ -290,6 +290,12 @@ def monitor(ctx, case, obs, after, w):
                 hits.append(('db-api-read-leak', 'returns a row of project %d that is not visible to project %d'
                              % (r['p'], a)))
                 break
+    # "public resources and workflows shared through an accepted membership are readable ... by others"
+    T = case['T']
+    if kind in ('get', 'load') and case['form'] == 'id' and T is not None and visible_gt(base, a, T) \
+            and not (obs['k'] == 'row' and obs['id'] == T['id']):
+        hits.append(('visible-row-not-readable',
+                     'a row that is the caller\'s own, public or shared with it is not returned by id'))
     if kind == 'count' and obs['k'] == 'count' and case.get('filters'):
         flt = case['filters']
         match = [r for r in base['resources'] if r['t'] == f['model']
@@ -425,7 +431,8 @@ def replay(ctx, rep):
         # ordinals are stable: the population is rebuilt in the same order
         args, kwargs, margs = make_call(w, case)
         obs, after = w.run_case(case['actor'], case['fn']['name'], args, kwargs, after=True)
-        print('replay: %s%r as %s -> %s' % (r['fn'], tuple(args), r['actor'], json.dumps(obs, default=str)))
+        print('replay: %s(*%r, **%r) as %s -> %s' % (r['fn'], [str(x)[:40] for x in args], kwargs, r['actor'],
+                                                       json.dumps(obs, default=str)))
         monitor(ctx, case, obs, after, w)
     else:
         access_extra.replay(ctx, w, rep)
